@@ -90,7 +90,14 @@ package fragswarm
 //@   noframe
 //@   fuel 5
 //@   requires s.msgIDs != nil
+//@   ghostvar m = 0 - 1
+//@   ghostvar asked = false
 //@   ensures old(sumlen(lens(data), len(data)) > s.mtu) ==> ret != nil
+//@   ensures [refuses] ghost(asked) && old(sumlen(lens(data), len(data))) > ghost(m) ==> ret != nil
+//@   ensures [honest] ghost(asked)
+//@   after call maxSize:
+//@     set m = res0
+//@     set asked = true
 //@   before call newMessage#0:
 //@     assert arg1 == 0 && arg2 == 1 && len(arg3) == size
 //@   before call Tell#0:
@@ -103,6 +110,7 @@ package fragswarm
 //@     pure
 //@   loop 0:
 //@     invariant 0 <= part && part <= total
+//@     invariant ghost(asked) && old(sumlen(lens(data), len(data))) <= ghost(m)
 //@     invariant 2 <= total && total <= 255 && underMTU >= 1
 //@     invariant (total - 1) * underMTU < size && size <= total * underMTU
 //@
